@@ -682,9 +682,15 @@ def check_class(m, c, facts, info, rep_finding):
             rep_finding("C16/methods/missing/" + mn, f"stub class lacks a single {mn} helper", det)
             continue
         (ps, kw), fixed = g
-        if set(n for n, _ in ps) != ref[0]:
+        # the field keywords of a helper are the constructor's keywords that can reach its **kw at run time: a keyword
+        # named like one of the helper's own parameters (from_other_class(cls, source_object, *, ignore_props=None, **kw))
+        # is bound to that parameter, it is not a field keyword of the helper (and cannot be written twice in a def)
+        want = ref[0] - set(fixed_want)
+        if set(n for n, _ in ps) != want:
             rep_finding("C16/methods/keywords-differ/" + mn,
-                        f"{mn}: keywords {sorted(n for n, _ in ps)} differ from the constructor's {sorted(ref[0])}", det)
+                        f"{mn}: keywords {sorted(n for n, _ in ps)} differ from the constructor's {sorted(want)}"
+                        + (f" (without the helper's own parameter(s) {sorted(ref[0] & set(fixed_want))})" if ref[0] & set(fixed_want) else ""),
+                        det)
         if ref[1] is not None and kw != ref[1]:
             rep_finding("C16/methods/kw-differs/" + mn, f"{mn}: ** = {kw} but __init__ ** = {ref[1]}", det)
         if [n for n, _ in fixed] != fixed_want:
@@ -870,6 +876,20 @@ def corpus_modules():
         cls("S5", ["immutable"], [f("a", "int")], custom_init=True),
     ]})
     mods[1]["extras"] = "class E0(enum.Enum):\n    A1 = 1\n    b_2 = 2\n\n"
+    # the Python type of a field is named like a module the source imports (datetime.datetime / module datetime;
+    # decimal.Decimal is not: kept as the control) -- add_imports must not read .__module__ of the module object
+    mods.append({"name": "k2", "apd": True, "flags": {"bad": False, "reserved": False}, "rejected": [], "extras": "",
+                 "enums": {}, "future": False, "imports": ["datetime", "decimal", "collections"], "classes": [
+        cls("S0", ["struct"], [f("when", "DateTime"), f("amount", "Decimal"), f("day", "DateField")]),
+        cls("S1", ["cls", "S0"], [f("queue", "Deque"), f("t2", "DateTime", "assign")], additional=False),
+    ]})
+    # fields named like the fixed parameters of from_other_class / from_trusted_data: the .pyi must compile
+    mods.append({"name": "k3", "apd": True, "flags": {"bad": False, "reserved": True}, "rejected": [], "extras": "",
+                 "enums": {}, "future": False, "classes": [
+        cls("S0", ["struct"], [f("cls", "int"), f("a", "str")]),
+        cls("S1", ["cls", "S0"], [f("source_object", "OptInt"), f("ignore_props", "Array", "assign")], additional=False),
+        cls("S2", ["struct"], [f("ignore_props", "str", default=True), f("b", "int")], optional=["b"]),
+    ]})
     return mods
 
 
